@@ -269,6 +269,7 @@ let run (line : string) : string =
   | "ident_keys" -> show_bool (ident_keys (parse_shape a.(1)))
   | "no_null_array" -> show_bool (no_null_array (parse_shape a.(1)))
   | "oneof_free" -> show_bool (oneof_free (parse_shape a.(1)))
+  | "scalar_oneofs" -> show_bool (scalar_oneofs (parse_shape a.(1)))
   | "nodup" -> show_bool (nodup_keys (parse_doc a.(1)))
   | "conflict_free" -> show_bool (conflict_free (parse_doc a.(1)))
   (* ---- text level (ocaml/textops.ml) ---- *)
